@@ -60,6 +60,17 @@ def check_tiles(job):
             query(t)
         except Exception as e:
             bad("filter-query-raises:%s" % type(e).__name__, repr(e), cfg)
+        if wk % 2 == 0 and 1 <= n <= 12:
+            # a pixel lookup that lands in this very tile immediately before its grid is asked for (and, below, the
+            # grid asked for twice): the answer must not depend on either
+            try:
+                c1, inc1 = tg.single(n, x, y, planetary)
+                lon1, lat1 = tg.lonlat(tg.centre(c1[None, None], np.array([[inc1]]))[0, 0])
+                if abs(float(lat1)) < np.pi / 2 - np.radians(1.5):
+                    toast.toast_tile_get_coords(t)
+                    toast.toast_pixel_for_point(n, float(lat1), float(lon1) + 0.3 * (np.pi / 2) / 2**n, coordsys=cs)
+            except Exception as e:
+                bad("pixel-lookup-raises:%s" % type(e).__name__, repr(e), cfg)
         # the tile is held while the other coordinate system is used (it must not be affected)
         toast.create_single_tile(Pos(n, x, y), coordsys=cs_of(not planetary))
         lon, lat = toast.toast_tile_get_coords(t)
@@ -178,7 +189,14 @@ def layer_case(depth, planetary, fmt, parallel, part):
         pio = PyramidIO(d, default_format=fmt)
         try:
             with quiet():
-                toast.sample_layer(pio, _coord_sampler, depth, coordsys=cs_of(planetary), parallel=parallel)
+                if parallel == 1 and fmt == "npy":
+                    # through the Builder with the coordinate system given explicitly and the planet flag saying the
+                    # opposite: the explicit keyword decides where the pixels are
+                    from toasty.builder import Builder
+
+                    Builder(pio).toast_base(_coord_sampler, depth, is_planet=not planetary, coordsys=cs_of(planetary), parallel=1)
+                else:
+                    toast.sample_layer(pio, _coord_sampler, depth, coordsys=cs_of(planetary), parallel=parallel)
         except Exception as e:
             cfg = {"pos": (depth, 0, 0), "coordsys": csn, "layer": True, "format": fmt, "parallel": parallel}
             part.violation("layer/raises:%s/%s" % (type(e).__name__, "parallel" if parallel > 1 else "serial"), "%r: %r" % (cfg, e), cfg)
